@@ -339,6 +339,53 @@ let c11_chn (rest : string) : string =
        | _ -> failwith "chn: bad header")
   | [] -> failwith "chn: empty"
 
+(* ---------- C12: connection lifecycle ---------- *)
+let kind_str = function
+  | Lifecycle.KIllegalState -> "IllegalState" | Lifecycle.KNotImplemented -> "NotImplemented"
+  | Lifecycle.KNotFound -> "NotFound" | Lifecycle.KNotAllowed -> "NotAllowed"
+  | Lifecycle.KRemoteClosed -> "RemoteClosed" | Lifecycle.KRemoteClosedWithError -> "RemoteClosedWithError"
+  | Lifecycle.KTransportError -> "TransportError" | Lifecycle.KIo -> "Io"
+  | Lifecycle.KHeaderMismatch -> "ProtocolHeaderMismatch"
+let res_str = function Lifecycle.ROk -> "ok" | Lifecycle.RErr k -> "err:" ^ kind_str k
+
+let c12_obs (o : Lifecycle.obs list) : string =
+  let wire = Stdlib.List.filter_map (function
+    | Lifecycle.WHeader -> Some "H" | Lifecycle.WOpen -> Some "O" | Lifecycle.WClose -> Some "C"
+    | Lifecycle.WCloseErr k -> Some ("Ce(" ^ kind_str k ^ ")") | _ -> None) o in
+  let dones = Stdlib.List.filter_map (function
+    | Lifecycle.DOpen r -> Some ("open=" ^ res_str r) | Lifecycle.DClose r -> Some ("close=" ^ res_str r) | _ -> None) o in
+  let eof = if Stdlib.List.exists (function Lifecycle.WEof -> true | _ -> false) o then ["EOF"] else [] in
+  Stdlib.String.concat " " ([Stdlib.String.concat "," wire] @ dones @ eof)
+
+let c12 (rest : string) : string =
+  let evs = split_on rest ';' in
+  let buf = Buffer.create 256 in
+  let s = Stdlib.List.fold_left (fun s e ->
+    let ev = match words e with
+      | ["open"] -> Lifecycle.EOpen | ["ph"] -> Lifecycle.EPHeader | ["phs"] -> Lifecycle.EPBadHeader
+      | ["po"] -> Lifecycle.EPOpen | ["pc"] -> Lifecycle.EPClose false | ["pce"] -> Lifecycle.EPClose true
+      | ["pb"; _; "-"] -> Lifecycle.EPIllegal Lifecycle.IBeginNoRemote
+      | ["pb"; _; _] -> Lifecycle.EPIllegal Lifecycle.IBeginUnknown
+      | ["pe"; _] -> Lifecycle.EPIllegal Lifecycle.IEndUnmapped
+      | ["pf"; _] -> Lifecycle.EPIllegal Lifecycle.IFrameUnmapped
+      | ["pz"] -> Lifecycle.EPEmpty | ["eof"] -> Lifecycle.EEof
+      | ["close"] -> Lifecycle.EClose | ["closee"] -> Lifecycle.ECloseErr | ["drop"] -> Lifecycle.EDrop
+      | _ -> failwith ("c12: bad event " ^ e) in
+    (* a second open frame is the IOpenAgain violation only once the connection is open *)
+    let ev = match ev, s with
+      | Lifecycle.EPOpen, Lifecycle.SOpened -> Lifecycle.EPIllegal Lifecycle.IOpenAgain
+      | _ -> ev in
+    let (s', o) = Lifecycle.step s ev in
+    Buffer.add_string buf (c12_obs o); Buffer.add_string buf " ; "; s') (Lifecycle.SStart []) evs in
+  let fin = match s with
+    | Lifecycle.SHdrSent | Lifecycle.SOpenSent | Lifecycle.SOpenFailed -> "open=PENDING"
+    | Lifecycle.SCloseSent Lifecycle.WCloseCall | Lifecycle.SDiscardLocal Lifecycle.WCloseCall -> "close=PENDING"
+    | Lifecycle.SDiscardProto (_, Lifecycle.WCloseCall) -> "close=PENDING"
+    | Lifecycle.SOpened | Lifecycle.SDiscardProto (_, Lifecycle.WHandle) -> "running"
+    | Lifecycle.SEnded (r, Lifecycle.HLive) -> "stopped=" ^ res_str r
+    | _ -> "" in
+  Buffer.add_string buf ("# " ^ fin); Buffer.contents buf
+
 let dispatch (line : string) : string =
   match Stdlib.String.index_opt line ' ' with
   | None -> failwith "no model tag"
@@ -349,6 +396,7 @@ let dispatch (line : string) : string =
        | "c07" -> c07 rest
        | "c08" -> c08 rest
        | "c02" -> c02 rest
+       | "c12" -> c12 rest
        | "lnk" -> c11_lnk rest
        | "chn" -> c11_chn rest
        | "xfer" -> frame_xfer rest
